@@ -150,9 +150,15 @@ static std::string vs(const std::vector<uint64_t> &v) {
 }
 
 // std::vector<bool> has no contiguous storage: buffers of bool are plain arrays
+// Read buffers are pre-filled with a sentinel that is neither zero nor empty: an element the library does
+// not write (a never-written region that HDF5 does not fill, say) must not pass for "reads as zero".
+template <typename T> struct Sentinel { static T value() { return static_cast<T>(77); } };
+template <> struct Sentinel<std::string> { static std::string value() { return "~never written by the read~"; } };
+template <> struct Sentinel<bool> { static bool value() { return true; } };
+
 template <typename T> struct Buf {
     std::vector<T> v;
-    explicit Buf(size_t n) : v(n) {}
+    explicit Buf(size_t n) : v(n, Sentinel<T>::value()) {}
     explicit Buf(const std::vector<T> &o) : v(o) {}
     T *data() { return v.data(); }
     const T *data() const { return v.data(); }
@@ -162,7 +168,7 @@ template <typename T> struct Buf {
 template <> struct Buf<bool> {
     std::unique_ptr<bool[]> p;
     size_t n;
-    explicit Buf(size_t nn) : p(new bool[nn ? nn : 1]()), n(nn) {}
+    explicit Buf(size_t nn) : p(new bool[nn ? nn : 1]()), n(nn) { for (size_t i = 0; i < n; i++) p[i] = true; }
     explicit Buf(const std::vector<bool> &o) : p(new bool[o.size() ? o.size() : 1]()), n(o.size()) {
         for (size_t i = 0; i < n; i++) p[i] = o[i];
     }
@@ -201,7 +207,7 @@ static bool representable(double d, DataType dt) {
 }
 
 template <typename U> static std::vector<double> readAs(const nix::DataArray &da, DataType dt, const NDSize &cnt, const NDSize &off, size_t n) {
-    std::vector<U> b(n ? n : 1);
+    std::vector<U> b(n ? n : 1, static_cast<U>(77));
     da.getData(dt, b.data(), cnt, off);
     std::vector<double> r(n);
     for (size_t i = 0; i < n; i++) r[i] = static_cast<double>(b[i]);
@@ -471,7 +477,7 @@ template <typename T> static void runTyped(Tape &t, Ctx &ctx, DataType dt, const
                 da.getDataDirect(dt, b.data(), nd(cnt), nd(off));
                 compare(expect, b, "getDataDirect", off, cnt);
             } else if (how == 3) {
-                T v = El<T>::zero();
+                T v = Sentinel<T>::value();
                 HydraIO<T>::readScalar(da, v, nd(off));
                 compare(expect, Buf<T>(std::vector<T>(1, v)), "getData(scalar)", off, cnt);
             } else {
